@@ -29,7 +29,12 @@ InitD == \E p \in {"grpc", "grpcweb"}, k \in {"unary", "server", "client", "bidi
            InitWith([Mk(p, k, 200, "match", "none", IF where = "header" THEN "5" ELSE "absent", "absent",
                         IF where = "term" THEN "5" ELSE "absent", "absent", "none", IF where = "header" THEN "empty" ELSE b, "canon")
                      EXCEPT !.gmsg = g])
-MCInit == InitA \/ InitB \/ InitC \/ InitD
+\* a message the client cannot read, followed by data without end: the call ends, and soon (C06 "terminates")
+InitE == \E p \in {"connect", "grpc", "grpcweb"}, k \in {"unary", "server", "client", "bidi"}, ts \in {"absent", "0"} :
+           /\ ~(p = "connect" /\ k = "unary")
+           /\ (p = "connect" => ts = "absent")
+           /\ InitWith(Mk(p, k, 200, "match", "none", "absent", "absent", ts, "absent", "none", "flood", "canon"))
+MCInit == InitA \/ InitB \/ InitC \/ InitD \/ InitE
 MCSpec == MCInit /\ [][Next]_vars
 GenSpec == MCInit /\ [][FALSE]_vars
 Emit == pc = "start" => PrintT(ToJson(sc))
